@@ -400,6 +400,9 @@ func checkC20(cx *Ctx, r *Report) {
 				if n == nil || n.Obj().Pkg() == nil || n.Obj().Pkg().Path() != checkerPkg || n.Obj().Name() != "Checker" {
 					continue
 				}
+				if fv := fieldVar(fa.X.Type(), fa.Field); fv == nil || fname(fv) != "steps" {
+					continue // another field of the Checker: what a step closure may write is R-CHK-REPEAT's business
+				}
 				nStores++
 				key := w.FuncKey(fn) + ":store-steps"
 				if fn != addStep {
